@@ -3,7 +3,8 @@
 expect = violation (the property's check must report it) | does-not-apply (a later commit touches the same lines) | not-covered."""
 import json, subprocess, os
 V = os.path.dirname(os.path.dirname(os.path.abspath(__file__)))
-NOT_COVERED = {"5d6e93d": "used-length accounting in _fast_append: a value relation, no rule"}
+NOT_COVERED = {"5d6e93d": "used-length accounting in _fast_append: a value relation, no rule",
+               "fb78590": "encode_array::shift is listed as not decided by LINBUF since the fix (LINBUF_CXX_EXCLUDED)"}
 k = json.load(open(os.path.join(V, "known_findings.json")))
 idx = []
 for e in k["fixed"]:
